@@ -838,7 +838,19 @@ def determinism_obligations(world, prop, targets):
     return obs
 
 
+APERTURES = [('photutils/aperture/circle.py', 'CircularAperture'),
+             ('photutils/aperture/circle.py', 'CircularAnnulus'),
+             ('photutils/aperture/ellipse.py', 'EllipticalAperture'),
+             ('photutils/aperture/ellipse.py', 'EllipticalAnnulus'),
+             ('photutils/aperture/rectangle.py', 'RectangularAperture'),
+             ('photutils/aperture/rectangle.py', 'RectangularAnnulus')]
+# aperture objects are reused across calls (photometry, area_overlap, ApertureStats, profiles):
+# nothing they cache may be written in place, and parameter assignment resets every cache
+APERTURE_STATE = [('frozen', rel, cn) for rel, cn in APERTURES] + [('descriptor',)]
+
 PLAN = {
+    'C01': list(APERTURE_STATE),
+    'C02': list(APERTURE_STATE),
     'C05': [('coherence', 'photutils/segmentation/core.py', 'SegmentationImage')],
     'C09': [
         ('purity', 'photutils/background/background_2d.py', 'Background2D'),
@@ -860,6 +872,7 @@ PLAN = {
         ('purity', 'photutils/profiles/curve_of_growth.py', 'CurveOfGrowth'),
         ('descriptor',),
         ('frozen', 'photutils/background/background_2d.py', 'Background2D'),
+    ] + [x for x in APERTURE_STATE if x[0] == 'frozen'] + [
         ('frozen', 'photutils/profiles/radial_profile.py', 'RadialProfile'),
         ('frozen', 'photutils/profiles/curve_of_growth.py', 'CurveOfGrowth'),
         ('frozen', 'photutils/psf/gridded_models.py', 'GriddedPSFModel'),
@@ -874,12 +887,15 @@ PLAN = {
             ('config', 'photutils/detection/daofinder.py', 'DAOStarFinder'),
             ('config', 'photutils/detection/irafstarfinder.py', 'IRAFStarFinder')],
     'C20': [('config', 'photutils/isophote/ellipse.py', 'Ellipse')],
+    # SourceCatalog pairs segment_img.labels[i] with segment_img.slices[i]: the segmentation
+    # image's caches must describe its current array whatever was done to it before
     'C07': [('purity', 'photutils/segmentation/catalog.py', 'SourceCatalog'),
-            ('frozen', 'photutils/segmentation/catalog.py', 'SourceCatalog')],
+            ('frozen', 'photutils/segmentation/catalog.py', 'SourceCatalog'),
+            ('coherence', 'photutils/segmentation/core.py', 'SegmentationImage')],
     'C08': [('frozen', 'photutils/segmentation/catalog.py', 'SourceCatalog'),
             ('frozen', 'photutils/aperture/stats.py', 'ApertureStats')],
     'C16': [('purity', 'photutils/aperture/stats.py', 'ApertureStats'),
-            ('frozen', 'photutils/aperture/stats.py', 'ApertureStats')],
+            ('frozen', 'photutils/aperture/stats.py', 'ApertureStats')] + APERTURE_STATE,
     'C13': [('config', 'photutils/psf/gridded_models.py', 'GriddedPSFModel'),
             ('purity', 'photutils/psf/gridded_models.py', 'GriddedPSFModel')],
 }
